@@ -55,7 +55,7 @@ PROPS = {
     "C14": dict(props_file="props/C14.v", engines=[("geom", dict(quick=[("C14", 4000)], thorough=[("C14", 200000)], coqeval_quick=24, coqeval_thorough=400))],
                 design="DESIGN.md section 4 C14", trusted=[FNS_TRUST]),
     "C15": dict(props_file="props/C15.v", engines=[("geom", dict(quick=[("C15", 4000)], thorough=[("C15", 200000)], coqeval_quick=24, coqeval_thorough=400))],
-                design="DESIGN.md section 4 C15"),
+                design="DESIGN.md section 4 C15", trusted=[FNS_TRUST]),
     "C17": dict(props_file="props/C17.v", engines=[("parse", dict(grammar_quick=1500, grammar_thorough=20000,
                                                                    arbitrary_quick=3000, arbitrary_thorough=200000))],
                 design="DESIGN.md section 4 C17"),
